@@ -56,7 +56,9 @@ def run(env):
             c4 = []
             nscripts = 60 if env.quick else 400
             for _ in range(nscripts):
-                sc = script(r, 4096)
+                # 512 bytes = at least 64 sampling attempts on the sets up to 64 bits (the Gallina literal of a 4 kB script costs
+                # ~20 MB of coqc memory per case, 8 GB per 400-case shard)
+                sc = script(r, 4096 if ctx.endswith("2048") else 512)
                 c4.append({"ctx": ctx, "op": "rnd_plaintext", "args": [sc], "tag": "sampler"})
                 c4.append({"ctx": ctx, "op": "rnd", "args": [sc], "tag": "sampler"})
             o4 = env.harness(c4)
